@@ -39,6 +39,12 @@ WBack(w, d, W, start, InitAt(_)) ==
 WCopy(w, d, cnt, W, start, InitAt(_)) ==
   [j \in 1..cnt |-> WBack(w, d - ((j - 1) % (d + 1)), W, start, InitAt)]
 
+(* LArc's copy commands (-lzs-, -lz5-) name an ABSOLUTE ring position p (the C code reduces
+   start + i modulo W, so any p is allowed): that is distance (ringbuf_pos - 1 - p) mod W.
+   p = ringbuf_pos itself is distance W-1: the byte written W bytes ago, and on from there. *)
+RingDistance(w, p, W, start) == (WPos(w, W, start) + 2 * W - 1 - (p % W)) % W
+RingCopy(w, p, cnt, W, start, InitAt(_)) == WCopy(w, RingDistance(w, p, W, start), cnt, W, start, InitAt)
+
 \* append output bytes
 LastN(s, n) == IF Len(s) <= n THEN s ELSE SubSeq(s, Len(s) - n + 1, Len(s))
 WPush(w, out, W) ==
